@@ -1,8 +1,8 @@
 package main
 
 import (
-	"go/token"
 	"fmt"
+	"go/token"
 	"regexp"
 	"sort"
 	"strings"
@@ -171,7 +171,6 @@ func checkTextSites(p *Prog, l *Ledger) {
 		})
 	}
 }
-
 
 // checkPrintClause: the print statement writes exactly one line, NFC(text(value)), where text is the shared text
 // function (stringify → fmt %v), on success paths only.
